@@ -193,6 +193,54 @@ def entity_corr():
     return len(lex), diffs, viol
 
 
+def style_corr():
+    """State.get_next vs Model.getNext for every (apocount, bold, italic, count); compute_path on random run
+    lengths: one state per run, never more than 32 candidates alive (observed through a wrapper)."""
+    from mwlib.parser import styleanalyzer as sa
+
+    from .common import Driver
+
+    reqs, want = [], []
+    for apo in range(0, 4):
+        for b in (0, 1):
+            for i in (0, 1):
+                for c in range(2, 12):
+                    st = sa.State(apocount=apo, is_bold=bool(b), is_italic=bool(i), previous=None)
+                    res = st.get_next(c)
+                    reqs.append(f"next {apo} {b} {i} {c}")
+                    want.append(" ".join(f"{x.apocount},{int(x.is_bold)},{int(x.is_italic)}" for x in res))
+                    for x in res:
+                        if x.previous is not st:
+                            want[-1] += " BAD-PREVIOUS"
+    outs = Driver("style").ask(reqs)
+    diffs = [{"request": r, "impl": w, "model": o} for r, w, o in zip(reqs, want, outs) if w != o]
+    viol = []
+    rng = random.Random(11)
+    orig_sort = sa.sort_states
+    seen_max = [0]
+
+    def spy(states):
+        seen_max[0] = max(seen_max[0], len(states))
+        return orig_sort(states)
+
+    sa.sort_states = spy
+    try:
+        for _ in range(400):
+            counts = [rng.choice([2, 2, 3, 3, 4, 5, 5, 6, 7, 9]) for _ in range(rng.randint(1, 40))]
+            try:
+                path = sa.compute_path(counts)
+            except Exception as e:  # noqa: BLE001
+                viol.append({"why": f"compute_path raised {type(e).__name__}: {e}", "text": " x ".join("'" * c for c in counts)})
+                continue
+            if len(path) != len(counts):
+                viol.append({"why": "compute_path returned a path of the wrong length", "text": str(counts)})
+        if seen_max[0] > 192:
+            viol.append({"why": f"{seen_max[0]} candidate states were sorted in one iteration (bound: 192)", "text": ""})
+    finally:
+        sa.sort_states = orig_sort
+    return len(reqs), diffs, viol, seen_max[0]
+
+
 def replay(chk, data):
     from . import build_repo
 
@@ -224,8 +272,9 @@ def run(chk: common.Check):
     res = common.lean_prove(PROP_MODULES, tier)
     trusted = [
         "Lean 4 kernel; axioms propext, Quot.sound, Classical.choice only (audited per theorem on this run)",
-        "scanner model (C10: Model/Scan.lean + ScanRules.lean, tied to the compiled _uscan.cc by C10's exhaustive correspondence) and "
-        "entity model (Model/Entity.lean, tied by correspondence here); generated table html.entities.name2codepoint",
+        "scanner model (C10: Model/Scan.lean + ScanRules.lean, tied to the compiled _uscan.cc by C10's exhaustive correspondence), "
+        "entity model (Model/Entity.lean) and apostrophe-analysis model (Model/Style.lean: State.get_next, the candidate loop with "
+        "the id()-dependent tie-break as an arbitrary selection), tied by correspondence here; generated table html.entities.name2codepoint",
         "NOT modelled: the ~20 refinement passes (sections, links, lists, paragraphs, tables, tags, styles), compat class conversion, "
         "tag extensions, the template expander (C03): for them the check is the no-exception / Article / CPU-growth oracle on the real "
         "parser over the generated input space, each call in a guarded child process",
@@ -233,6 +282,11 @@ def run(chk: common.Check):
     ]
     chk.proof_coverage(res, trusted)
     nlex, ediffs, eviol = entity_corr()
+    nsty, sdiffs, sviol, smax = style_corr()
+    ediffs += sdiffs
+    eviol += sviol
+    nlex += nsty
+    chk.coverage["style_max_candidates_sorted"] = smax
     scratch = str(chk.mkscratch())
     n = 40000 if tier == "thorough" else 5000
     items = [chk.seed * 10_000_000 + 8_000_000 + i for i in range(n)]
